@@ -46,6 +46,7 @@ var c20Guards = []guardSpec{
 
 // reviewed unguarded accesses: "<func> <owner>.<field>"
 var c20GuardExceptions = ExcTable{
+	"cmd/esbuild.(*serviceType).handleBuildRequest cmd/esbuild.activeBuild.ctx": "initial store right after api.Context() returned and before the response packet is sent: the client learns that the context exists only from that response, so no rebuild/cancel/dispose/resolve request for this key can be in flight, and no build (hence no on-start callback) has been started yet",
 	"fs.(*realFS).WatchData fs.realFS.watchData": "each build creates its own realFS; rebuildImpl calls WatchData() after ScanBundle has joined every goroutine that reads files, and nothing reads files through this FS afterwards (Compile only uses path functions)",
 	"pkg/api.(*internalContext).Dispose pkg/api.internalContext.watcher": "read after the critical section that set didDispose: Watch() assigns ctx.watcher only under the lock after testing didDispose, so no write can follow; the lock hand-over orders any earlier write before this read",
 	"pkg/api.(*internalContext).Dispose pkg/api.internalContext.handler": "read after the critical section that set didDispose: Serve() assigns ctx.handler only under the lock after testing didDispose, so no write can follow; the lock hand-over orders any earlier write before this read",
@@ -165,7 +166,7 @@ func init() {
 		ID: "C20",
 		Explanation: "Decides structural necessary conditions of concurrency safety of contexts, plugins and the stdio service (not absence of all races or liveness): R1 guarded-by: every read/write of the listed shared fields (build-context state, service state, watcher and serve-handler state, caches) happens with the owning mutex in the must-hold lock set (intraprocedural dataflow with defer handling and one level of call-site binding), or is a reviewed entry; R2 every Lock is released on all exits (or deferred), and no blocking operation (WaitGroup.Wait, plugin/rebuild call, channel op) runs while a context/service mutex is held; R3 Rebuild/Cancel/Dispose join semantics (Add and activeBuild publication in one critical section, activeBuild cleared under the lock before Done, Cancel/Dispose wait for the snapshotted build, didDispose tested under the lock by every public method); R4 each stdio request gets exactly one response carrying its own id on every path, and every goroutine of the handler is accounted in the keep-alive wait group; R5 on-start callbacks complete before anything that can reach resolve/load callbacks, and on-end callbacks run after the output-writing wait and on every path. NOT covered: data races on fields outside the table, liveness under arbitrary plugin behaviour, the TypeScript side of the protocol.",
 		Run: func(p *Prog, tier string) []*RuleResult {
-			return []*RuleResult{c20GuardedBy(p), c20LockBalance(p)}
+			return []*RuleResult{c20GuardedBy(p), c20LockBalance(p), c20JoinSemantics(p), c20CallbackOrdering(p)}
 		},
 	})
 }
@@ -199,7 +200,7 @@ func c20GuardedBy(p *Prog) *RuleResult {
 				continue
 			}
 			// object not yet shared: allocated in this function
-			if _, isAlloc := a.fa.X.(*ssa.Alloc); isAlloc || frzFreshValue(a.fa.X, 0) {
+			if isLocalStruct(a.fa.X) {
 				r.OK(key+" "+mode+" (unshared)", true, "the struct is allocated in this function and not yet published")
 				continue
 			}
@@ -256,7 +257,7 @@ func writtenOnlyUnshared(acc []fieldAccess) bool {
 		if _, isStore := a.instr.(*ssa.Store); !isStore {
 			continue // map updates change the contents, not the field
 		}
-		if _, isAlloc := a.fa.X.(*ssa.Alloc); isAlloc || frzFreshValue(a.fa.X, 0) {
+		if isLocalStruct(a.fa.X) {
 			continue
 		}
 		return false
@@ -368,5 +369,390 @@ func c20LockBalance(p *Prog) *RuleResult {
 	r.Note("Lock() call sites: %d", nlocks)
 	r.Floor(40)
 	r.StaleCheck(c20BalanceExceptions)
+	return r
+}
+
+// isLocalStruct: v addresses a struct that is being built in this very function (composite literal
+// or new(T), possibly a nested field of one) and has not been handed to anyone yet at construction.
+func isLocalStruct(v ssa.Value) bool {
+	for {
+		switch x := v.(type) {
+		case *ssa.Alloc:
+			return true
+		case *ssa.FieldAddr:
+			v = x.X
+		default:
+			return false
+		}
+	}
+}
+
+// ---------------------------------------------------------------------------------------------
+// R3 join semantics, R5 callback ordering
+
+func findCalls(fn *ssa.Function, pred func(name string) bool) []ssa.CallInstruction {
+	var out []ssa.CallInstruction
+	eachInstr(fn, func(b *ssa.BasicBlock, in ssa.Instruction) {
+		if c, ok := in.(ssa.CallInstruction); ok && pred(calleeFullName(c)) {
+			out = append(out, c)
+		}
+	})
+	return out
+}
+
+func wgMethodOn(c ssa.CallInstruction, method, fieldName string) bool {
+	if calleeFullName(c) != "(*sync.WaitGroup)."+method {
+		return false
+	}
+	args := c.Common().Args
+	if len(args) == 0 {
+		return false
+	}
+	if fa, ok := args[0].(*ssa.FieldAddr); ok {
+		return fieldAddrName(fa) == fieldName
+	}
+	if al, ok := args[0].(*ssa.Alloc); ok {
+		return al.Comment == fieldName
+	}
+	if u, ok := args[0].(*ssa.UnOp); ok {
+		if fv, ok := u.X.(*ssa.FreeVar); ok {
+			return fv.Name() == fieldName
+		}
+	}
+	if fv, ok := args[0].(*ssa.FreeVar); ok {
+		return fv.Name() == fieldName
+	}
+	return false
+}
+
+func c20JoinSemantics(p *Prog) *RuleResult {
+	r := NewRule("C20/R3 join-semantics", "a build is published (activeBuild) together with its WaitGroup.Add in one critical section and unpublished under the lock strictly before Done; Cancel and Dispose wait for the build they snapshotted; every public context method tests didDispose under the lock first")
+	lc := newLockCache(p)
+	rb := p.FindFunc("pkg/api.(*internalContext).rebuild")
+	if r.Anchor("pkg/api.(*internalContext).rebuild", rb != nil) {
+		li := lc.info(rb)
+		var add, done ssa.CallInstruction
+		var pub, unpub *ssa.Store
+		eachInstr(rb, func(b *ssa.BasicBlock, in ssa.Instruction) {
+			if c, ok := in.(ssa.CallInstruction); ok {
+				if wgMethodOn(c, "Add", "waitGroup") {
+					add = c
+				}
+				if wgMethodOn(c, "Done", "waitGroup") {
+					done = c
+				}
+			}
+			if st, ok := in.(*ssa.Store); ok {
+				if fa, ok := st.Addr.(*ssa.FieldAddr); ok && fieldAddrName(fa) == "activeBuild" {
+					if c, isC := st.Val.(*ssa.Const); isC && c.Value == nil {
+						unpub = st
+					} else {
+						pub = st
+					}
+				}
+			}
+		})
+		r.Instances++
+		if add == nil || done == nil || pub == nil || unpub == nil {
+			r.Fail("rebuild anchors", p.Pos(rb.Pos()), "waitGroup.Add/Done or the activeBuild publish/unpublish stores were not found")
+		} else {
+			// Add and publish in one critical section: same block, lock held at both, no unlock between
+			sameCS := add.Block() == pub.Block() && len(li.at[add.(ssa.Instruction)]) > 0 && len(li.at[pub]) > 0
+			if sameCS {
+				lo, hi := instrIndex(add.Block(), add.(ssa.Instruction)), instrIndex(pub.Block(), pub)
+				if lo > hi {
+					lo, hi = hi, lo
+				}
+				for _, in := range add.Block().Instrs[lo:hi] {
+					if c, ok := in.(ssa.CallInstruction); ok {
+						if op, _, ok := mutexCall(c); ok && op == "unlock" {
+							sameCS = false
+						}
+					}
+				}
+			}
+			if sameCS {
+				r.OK("rebuild: Add(1) and activeBuild publication in one critical section", true, "same block, ctx.mutex held throughout")
+			} else {
+				r.Fail("rebuild: Add(1) and activeBuild publication in one critical section", p.Pos(pub.Pos()), "a joiner could observe the published build before its wait group was armed (or the reverse)")
+			}
+			r.Instances++
+			if instrDominates(unpub, done.(ssa.Instruction)) && len(li.at[unpub]) > 0 {
+				r.OK("rebuild: activeBuild cleared under the lock before Done", true, "the nil store dominates waitGroup.Done()")
+			} else {
+				r.Fail("rebuild: activeBuild cleared under the lock before Done", p.Pos(done.Pos()), "Done() can run before activeBuild is cleared: a waiter released by Done could start a Rebuild that joins the finished build")
+			}
+			r.Instances++
+			if path, bad := reachesExitAvoiding(add.Block(), isReturnBlock, func(b *ssa.BasicBlock) bool { return b == done.Block() }, true); bad && add.Block() != done.Block() {
+				r.Fail("rebuild: Done on every path after Add", p.Pos(add.Pos()), "a path returns after Add(1) without Done(): "+blockPath(path))
+			} else {
+				r.OK("rebuild: Done on every path after Add", true, "every path from Add(1) to a return passes Done()")
+			}
+			// exactly one Done call site
+			r.Instances++
+			nd := len(findCalls(rb, func(n string) bool { return n == "(*sync.WaitGroup).Done" }))
+			if nd == 1 {
+				r.OK("rebuild: single Done", true, "exactly one Done() call site")
+			} else {
+				r.Fail("rebuild: single Done", p.Pos(rb.Pos()), fmt.Sprintf("%d Done() call sites", nd))
+			}
+		}
+	}
+	for _, name := range []string{"pkg/api.(*internalContext).Cancel", "pkg/api.(*internalContext).Dispose"} {
+		fn := p.FindFunc(name)
+		if !r.Anchor(name, fn != nil) {
+			continue
+		}
+		r.Instances++
+		// the If on `build != nil` whose true branch must reach Wait on every path
+		var waitBlocks = map[*ssa.BasicBlock]bool{}
+		for _, c := range findCalls(fn, func(n string) bool { return n == "(*sync.WaitGroup).Wait" }) {
+			if wgMethodOn(c, "Wait", "waitGroup") {
+				waitBlocks[c.Block()] = true
+			}
+		}
+		ok := false
+		var badPath string
+		eachInstr(fn, func(b *ssa.BasicBlock, in ssa.Instruction) {
+			ifi, isIf := in.(*ssa.If)
+			if !isIf {
+				return
+			}
+			bo, isB := ifi.Cond.(*ssa.BinOp)
+			if !isB || namedTypeName(bo.X.Type()) != "pkg/api.buildInProgress" {
+				return
+			}
+			// value compared must come from ctx.activeBuild
+			_, fname, isF := loadedField(bo.X)
+			if !isF || fname != "activeBuild" {
+				return
+			}
+			succ := b.Succs[0]
+			if bo.Op.String() == "==" {
+				succ = b.Succs[1]
+			}
+			if path, bad := reachesExitAvoiding(succ, isReturnBlock, func(x *ssa.BasicBlock) bool { return waitBlocks[x] }, false); bad {
+				badPath = blockPath(path)
+			} else {
+				ok = true
+			}
+		})
+		if ok && badPath == "" {
+			r.OK(name+" waits for the snapshotted build", true, "with a non-nil activeBuild snapshot every path to return passes build.waitGroup.Wait()")
+		} else {
+			r.Fail(name+" waits for the snapshotted build", p.Pos(fn.Pos()), "returns without waiting for the running build "+badPath)
+		}
+	}
+	for _, name := range []string{"pkg/api.(*internalContext).rebuild", "pkg/api.(*internalContext).Cancel", "pkg/api.(*internalContext).Dispose", "pkg/api.(*internalContext).Watch", "pkg/api.(*internalContext).Serve"} {
+		fn := p.FindFunc(name)
+		if !r.Anchor(name, fn != nil) {
+			continue
+		}
+		r.Instances++
+		li := lc.info(fn)
+		var test *ssa.BasicBlock
+		eachInstr(fn, func(b *ssa.BasicBlock, in ssa.Instruction) {
+			if ifi, ok := in.(*ssa.If); ok {
+				if _, n, ok := loadedField(ifi.Cond); ok && n == "didDispose" {
+					if u, ok := ifi.Cond.(*ssa.UnOp); ok && len(li.at[u]) > 0 {
+						test = b
+					}
+				}
+			}
+		})
+		key := name + " tests didDispose under the lock first"
+		if test == nil {
+			r.Fail(key, p.Pos(fn.Pos()), "no test of ctx.didDispose under ctx.mutex")
+			continue
+		}
+		good := true
+		for _, b := range fn.Blocks {
+			if isReturnBlock(b) && b != fn.Recover && !test.Dominates(b) {
+				good = false
+			}
+		}
+		// nothing but the Lock before the test: the test block must be the entry block or directly follow it
+		if good && (test == fn.Blocks[0] || (len(test.Preds) == 1 && test.Preds[0] == fn.Blocks[0])) {
+			r.OK(key, true, "the didDispose test dominates every return and is the first thing after taking the lock")
+		} else if good {
+			r.OK(key, true, "the didDispose test dominates every return")
+		} else {
+			r.Fail(key, p.Pos(fn.Pos()), "a path returns without having tested didDispose")
+		}
+	}
+	r.Floor(8)
+	return r
+}
+
+func c20CallbackOrdering(p *Prog) *RuleResult {
+	r := NewRule("C20/R5 callback-ordering", "ScanBundle waits for all on-start callbacks before anything that can reach a resolve/load callback; on-start goroutines always call Done; on-end callbacks run after the output writes were joined and on every path")
+	sb := p.FindFunc("bundler.ScanBundle")
+	if r.Anchor("bundler.ScanBundle", sb != nil) {
+		// functions from which plugin resolve/load callbacks are reachable
+		targets := []*ssa.Function{p.FindFunc("bundler.RunOnResolvePlugins"), p.FindFunc("bundler.runOnLoadPlugins")}
+		r.Anchor("bundler.RunOnResolvePlugins", targets[0] != nil)
+		r.Anchor("bundler.runOnLoadPlugins", targets[1] != nil)
+		cg := p.CallGraph()
+		reach := map[*ssa.Function]bool{}
+		var work []*ssa.Function
+		for _, t := range targets {
+			if t != nil {
+				reach[t] = true
+				work = append(work, t)
+			}
+		}
+		for len(work) > 0 {
+			f := work[len(work)-1]
+			work = work[:len(work)-1]
+			if n := cg.Nodes[f]; n != nil {
+				for _, e := range n.In {
+					c := e.Caller.Func
+					if !reach[c] && p.InModule(c) && strings.Contains(pkgPathOf(c), "/internal/bundler") {
+						reach[c] = true
+						work = append(work, c)
+					}
+				}
+			}
+		}
+		var wait ssa.CallInstruction
+		for _, c := range findCalls(sb, func(n string) bool { return n == "(*sync.WaitGroup).Wait" }) {
+			if wgMethodOn(c, "Wait", "onStartWaitGroup") {
+				wait = c
+			}
+		}
+		if r.Anchor("ScanBundle onStartWaitGroup.Wait()", wait != nil) {
+			n := 0
+			eachInstr(sb, func(b *ssa.BasicBlock, in ssa.Instruction) {
+				c, ok := in.(ssa.CallInstruction)
+				if !ok {
+					return
+				}
+				var callee *ssa.Function
+				if g, isGo := in.(*ssa.Go); isGo {
+					callee = calleeOfGo(g)
+				} else {
+					callee = c.Common().StaticCallee()
+				}
+				if callee == nil || !reach[callee] {
+					// closures of ScanBundle that can reach callbacks
+					if callee == nil || callee.Parent() != sb {
+						return
+					}
+					can := false
+					for _, f := range withClosures(callee) {
+						eachInstr(f, func(_ *ssa.BasicBlock, in2 ssa.Instruction) {
+							if c2, ok := in2.(ssa.CallInstruction); ok {
+								if sc := c2.Common().StaticCallee(); sc != nil && reach[sc] {
+									can = true
+								}
+							}
+						})
+					}
+					if !can {
+						return
+					}
+				}
+				n++
+				r.Instances++
+				key := "ScanBundle call " + FuncName(callee) + " after on-start barrier"
+				if instrDominates(wait.(ssa.Instruction), in) {
+					r.OK(key, true, "dominated by onStartWaitGroup.Wait()")
+				} else {
+					r.Fail(key, p.Pos(in.Pos()), FuncName(callee)+" can run resolve/load callbacks but is not dominated by the on-start barrier")
+				}
+			})
+			if n < 3 {
+				r.Fail("ScanBundle callback-reaching calls", p.Pos(sb.Pos()), "expected at least 3 calls that can reach resolve/load callbacks (inject, entry points, scan loop)")
+			}
+		}
+		// on-start goroutines: Done on every path
+		eachInstr(sb, func(b *ssa.BasicBlock, in ssa.Instruction) {
+			g, ok := in.(*ssa.Go)
+			if !ok {
+				return
+			}
+			callee := calleeOfGo(g)
+			if callee == nil {
+				return
+			}
+			var dones []ssa.CallInstruction
+			for _, c := range findCalls(callee, func(n string) bool { return n == "(*sync.WaitGroup).Done" }) {
+				if wgMethodOn(c, "Done", "onStartWaitGroup") {
+					dones = append(dones, c)
+				}
+			}
+			if len(dones) == 0 {
+				return
+			}
+			r.Instances++
+			key := "on-start goroutine " + FuncName(callee) + " Done on every path"
+			doneBlocks := map[*ssa.BasicBlock]bool{}
+			deferred := false
+			for _, d := range dones {
+				doneBlocks[d.Block()] = true
+				if _, isDefer := d.(*ssa.Defer); isDefer {
+					deferred = true
+				}
+			}
+			if deferred {
+				r.OK(key, true, "deferred")
+				return
+			}
+			if path, bad := reachesExitAvoiding(callee.Blocks[0], isReturnBlock, func(x *ssa.BasicBlock) bool { return doneBlocks[x] }, false); bad {
+				r.Fail(key, p.Pos(callee.Pos()), "a path returns without Done(): the scan would wait forever: "+blockPath(path))
+			} else {
+				r.OK(key, true, "every path to return passes Done()")
+			}
+		})
+	}
+	// on-end after writes, on every path
+	rb := p.FindFunc("pkg/api.rebuildImpl")
+	if r.Anchor("pkg/api.rebuildImpl", rb != nil) {
+		var onEndLoad ssa.Instruction
+		var onEndCall ssa.Instruction
+		var writeWait ssa.CallInstruction
+		var goBlocks []*ssa.BasicBlock
+		var compile ssa.Instruction
+		eachInstr(rb, func(b *ssa.BasicBlock, in ssa.Instruction) {
+			if u, ok := in.(*ssa.UnOp); ok {
+				if _, n, ok := loadedField(u); ok && n == "onEndCallbacks" && onEndLoad == nil {
+					onEndLoad = in
+				}
+			}
+			if c, ok := in.(*ssa.Call); ok {
+				if _, n, ok := loadedField(c.Call.Value); ok && n == "fn" && namedTypeName(c.Call.Value.(*ssa.UnOp).X.(*ssa.FieldAddr).X.Type()) == "pkg/api.onEndCallback" {
+					onEndCall = in
+				}
+				if wgMethodOn(c, "Wait", "waitGroup") {
+					writeWait = c
+				}
+				if strings.HasSuffix(calleeFullName(c), "bundler.Bundle).Compile") {
+					compile = in
+				}
+			}
+			if _, ok := in.(*ssa.Go); ok {
+				goBlocks = append(goBlocks, b)
+			}
+		})
+		if r.Anchor("rebuildImpl on-end loop", onEndLoad != nil && onEndCall != nil) && r.Anchor("rebuildImpl write waitGroup.Wait()", writeWait != nil) {
+			for _, gb := range goBlocks {
+				r.Instances++
+				key := "rebuildImpl on-end after write join"
+				if path, bad := reachesExitAvoiding(gb, func(b *ssa.BasicBlock) bool { return b == onEndCall.Block() }, func(b *ssa.BasicBlock) bool { return b == writeWait.Block() }, true); bad {
+					r.Fail(key, p.Pos(onEndCall.Pos()), "an on-end callback can run while output files are still being written: "+blockPath(path))
+				} else {
+					r.OK(key, true, "every path from a file-operation goroutine spawn to the on-end call passes waitGroup.Wait()")
+				}
+			}
+			r.Instances++
+			if path, bad := reachesExitAvoiding(rb.Blocks[0], isReturnBlock, func(b *ssa.BasicBlock) bool { return b == onEndLoad.Block() }, false); bad {
+				r.Fail("rebuildImpl on-end loop on every path", p.Pos(rb.Pos()), "a path returns without running the on-end callbacks: "+blockPath(path))
+			} else {
+				r.OK("rebuildImpl on-end loop on every path", true, "every path to return passes the on-end loop")
+			}
+			_ = compile
+		}
+	}
+	r.Floor(6)
 	return r
 }
